@@ -14,7 +14,7 @@ Ties (every run):
             over the ranges they are trusted for."""
 from lib import common
 from lib.common import cps, uncps
-from corr import numlib, numerals
+from corr import numlib, numerals, numkeys
 
 PROP = 'C04'
 LEVEL = 'proof'
@@ -24,7 +24,7 @@ REQUIRED_THEOREMS = ['english_value', 'english_cardinal', 'english_ordinal', 'en
                      'spanish_sub1000', 'portuguese_sub1000', 'german_sub1000', 'dutch_sub1000',
                      'french_sub1000_partial', 'french_plural_cents_witness', 'italian_sub1000_partial',
                      'italian_accented_tre_witness', 'cjk_int_zh', 'cjk_int_ja_partial', 'cjk_ja_bare_unit_witness',
-                     'cjk_round_div10']
+                     'cjk_round_div10', 'round_map_consistent', 'round_map_consistent_de_partial', 'german_milliard_witness']
 RULE = ('unit: __get_int_value on every English numeral of the pipeline set + seeded token lists over each '
         "culture's map keys; pipeline: English n<10^4 (quick: every 7th + boundaries; thorough: all), 10^k, 10^k±1, "
         'seeded n<10^15, x 8 variants x cardinal/ordinal x alone/carrier; es fr pt de it nl zh ja: generator output '
@@ -392,8 +392,85 @@ def pipeline_other(ctx):
                                       'result': res}, property_fails=True)
 
 
+def scale_word(text):
+    for w in ('billones', 'billón', 'millones', 'millón', 'milliards', 'milliard', 'millions', 'million', 'milhões',
+              'milhão', 'milliarden', 'milliarde', 'millionen', 'miliardi', 'miliardo', 'milioni', 'milione',
+              'biljoen', 'miljard', 'miljoen', 'mille', 'mila', 'tausend', 'duizend', 'mil'):
+        if w in text:
+            return w
+    return 'none'
+
+
+def pipeline_big(ctx):
+    """scale words x multipliers x remainders, with each culture's agreement / apocope rules"""
+    jobs, meta = [], []
+    for cu, f in numerals.BIG.items():
+        for n, text in f():
+            for carrier in (False, True):
+                q = CARRIER[cu] % text if carrier else text
+                jobs.append(('number', cu, q))
+                meta.append((cu, n, text, q, q.index(text)))
+    results = numlib.run_pipeline(jobs)
+    for (cu, n, text, q, off), res in zip(meta, results):
+        ctx.count('pipeline-%s-scale-words' % cu)
+        if not isinstance(res, str) and res:
+            ctx.nontriv((cu, q))
+        bad, detail = judge(res, text, off, n, None)
+        if bad:
+            cls = 'mil-millones' if 'mil millones' in text else scale_word(text)
+            sig = '%s:cardinal-scale:%s:%s' % (cu, cls, bad)
+            if cu == 'fr-fr' and bad == 'split' and word_class(cu, text) == 'compound':
+                sig = 'fr-fr:cardinal:compound:split'      # the recorded family: a compound after `cent` in a sentence
+            ctx.report('property', sig, 'number(%r, %s): %s' % (q, cu, detail),
+                       failing_input={'culture': cu, 'model': 'number', 'query': q, 'numeral': text, 'denotes': n,
+                                      'result': res}, property_fails=True)
+
+
+def pipeline_ordinals(ctx):
+    """ordinals of es fr pt de it nl through recognize_ordinal: units, tens, hundreds, scale words"""
+    jobs, meta = [], []
+    for cu, lst in numerals.ORDINALS.items():
+        for n, text in lst:
+            for carrier in (False, True):
+                q = CARRIER[cu] % text if carrier else text
+                jobs.append(('ordinal', cu, q))
+                meta.append((cu, n, text, q, q.index(text)))
+    results = numlib.run_pipeline(jobs)
+    for (cu, n, text, q, off), res in zip(meta, results):
+        ctx.count('pipeline-%s-ordinal' % cu)
+        if not isinstance(res, str) and res:
+            ctx.nontriv((cu, 'ord', q))
+        bad, detail = judge(res, text, off, n, None)
+        if bad:
+            cls = 'unit' if n < 20 else 'tens' if n < 100 else 'hundreds' if n < 1000 else 'scale'
+            ctx.report('property', '%s:ordinal:%s:%s' % (cu, cls, bad), 'ordinal(%r, %s): %s' % (q, cu, detail),
+                       failing_input={'culture': cu, 'model': 'ordinal', 'query': q, 'numeral': text, 'denotes': n,
+                                      'result': res}, property_fails=True)
+
+
+def key_ties(ctx):
+    """every map key (Patterns YAML ∪ module) alone -> its YAML value, unless the committed contract lists it"""
+    contract = numkeys.load_contract()
+    jobs = numkeys.key_jobs(lambda cu: numlib.models(cu)['number'].parser.config)
+    results = numlib.run_pipeline([(kind, cu, k) for cu, name, k, v, kind in jobs])
+    for (cu, name, k, v, kind), res in zip(jobs, results):
+        if k in contract.get(cu, {}).get(name, {}):
+            ctx.count('map-key-not-standalone')
+            continue
+        ctx.count('map-key-alone')
+        bad, detail = judge(res, k, 0, v, None)
+        if not bad:
+            ctx.nontriv(('key', cu, name, k))
+        else:
+            ctx.report('property', '%s:key:%s:%s' % (cu, 'cardinal' if kind == 'number' else 'ordinal', bad),
+                       '%s(%r, %s): %s; %s[%r] = %d in Patterns/%s' % (kind, k, cu, detail, name, k, v, numkeys.LANGS[cu]),
+                       failing_input={'culture': cu, 'model': kind, 'query': k, 'map': name, 'denotes': v, 'result': res},
+                       property_fails=True)
+
+
 def carriers_clean(ctx):
-    jobs = [('number', cu, CARRIER[cu] % 'x') for cu in CARRIER] + [('ordinal', 'en-us', ORD_CARRIER % 'x')]
+    jobs = ([('number', cu, CARRIER[cu] % 'x') for cu in CARRIER] + [('ordinal', 'en-us', ORD_CARRIER % 'x')] +
+            [('ordinal', cu, CARRIER[cu] % 'x') for cu in numerals.ORDINALS])
     for j, res in zip(jobs, numlib.run_pipeline(jobs)):
         if res:
             raise common.InfraError('carrier sentence %r yields entities by itself: %r' % (j, res))
@@ -412,6 +489,9 @@ def correspond(ctx):
     unit_cjk(ctx)
     pipeline_english(ctx, spelled)
     pipeline_other(ctx)
+    pipeline_big(ctx)
+    pipeline_ordinals(ctx)
+    key_ties(ctx)
     ctx.extra['english_values'] = len(ns)
     ctx.extra['int_value_variant'] = 'repaired (scan reaches index 0)' if variant() else 'as first found (index 0 never an end word)'
 
@@ -419,6 +499,18 @@ def correspond(ctx):
 def search(ctx, proof_problems):
     """A table obligation broke (a word the generator emits is missing from the regenerated maps or carries
     another value): evaluate the model on every single word and replay it on the implementation."""
+    # round words whose value differs from their ordinal / cardinal entry: replay "<word>" alone on the implementation
+    for cu in numkeys.LANGS:
+        cfg = numlib.models(cu)['number'].parser.config
+        for w, r in cfg.round_number_map.items():
+            for name, m, kind in (('OrdinalNumberMap', cfg.ordinal_number_map, 'ordinal'),
+                                  ('CardinalNumberMap', cfg.cardinal_number_map, 'number')):
+                if w in m and m[w] != r and not (cu == 'de-de' and w == 'milliard'):
+                    res = numlib.run_pipeline([(kind, cu, 'x ' + w)])[0]
+                    ctx.report('property', '%s:round-map:%s' % (cu, w),
+                               'RoundNumberMap[%r] = %r but %s[%r] = %r' % (w, r, name, w, m[w]),
+                               failing_input={'culture': cu, 'word': w, 'round': r, name: m[w], 'query': w, 'result': res},
+                               property_fails=True)
     parser = numlib.models('en-us')['number'].parser
     words = {}
     lines, keys = [], []
